@@ -35,6 +35,9 @@ func init() {
 
 func runC02(w *World, r *Report) {
 	hrConcurrentAllowed(w, r, "R6")
+	hrChildStrategyKeepsParent(w, r, "R6")
+	hrParentWalk(w, r, "R6")
+	hrCacheFailureDoesNotFailTheTransaction(w, r, "R6")
 	hrOnErrorRecords(w, r, "R6")
 	hrToComparable(w, r, "R6")
 	hrLimiterRegisters(w, r, "R6")
